@@ -1,4 +1,5 @@
 import ErgoVerif.Lemmas.EdfTop
+import ErgoVerif.Lemmas.HsCache
 /-!
 # C11 — EDF round trip
 
@@ -243,5 +244,41 @@ example : Good o1 .error (.errSent 0) := by simp [Good, LeafGood, o1, limErrIdEn
 /-- nil and empty stay apart -/
 example : encode o0 (.slice .str) .nil ≠ encode o0 (.slice .str) (.list .nil) := by decide
 example : encode o0 (.map .str .bool) .nil ≠ encode o0 (.map .str .bool) (.map .nil) := by decide
+
+-- ------------------------------------------------------------------------------------------------
+-- the caches two nodes negotiate are consistent (net/handshake/handshake.go:134-206)
+-- ------------------------------------------------------------------------------------------------
+
+open ErgoVerif.HsCache in
+/-- The sender inverts its own id → value tables into encode caches, the receiver builds its decode caches from
+    the very tables the sender announced.  With the ids the registration functions hand out (atoms 256.., types
+    4096.., errors 32768..65534, all distinct) the result satisfies `CachesConsistent`, the hypothesis of the
+    round-trip theorems — for every content of the tables. -/
+theorem C11_handshake_caches (o : Opts) (atoms types : List (Nat × Bytes)) (errs : List (Nat × Nat))
+    (ha : (atoms.map (·.1)).Nodup) (ht : (types.map (·.1)).Nodup) (he : (errs.map (·.1)).Nodup)
+    (ra : ∀ e ∈ atoms, e.1 < 65536) (rt : ∀ e ∈ types, 4095 < e.1 ∧ e.1 < 65536) (re : ∀ e ∈ errs, e.1 < 65535)
+    (h1 : o.atomId = encodeCache atoms) (h2 : o.atomOf = decodeCache atoms)
+    (h3 : o.regId = encodeCache types) (h4 : o.regOf = decodeCache types)
+    (h5 : o.errId = encodeCache errs) (h6 : o.errOf = fun id => (decodeCache errs id).map Val.errSent) :
+    CachesConsistent o := by
+  have mem : ∀ {α : Type} [DecidableEq α] (tbl : List (Nat × α)) (a : α) (k : Nat),
+      encodeCache tbl a = some k → ∃ e ∈ tbl, e.1 = k := by
+    intro α _ tbl a k h
+    simp only [encodeCache, Option.map_eq_some_iff] at h
+    obtain ⟨x, hx, rfl⟩ := h
+    exact ⟨x, List.mem_of_find?_eq_some hx, rfl⟩
+  refine ⟨?_, ?_, ?_⟩
+  · intro a id h _
+    rw [h1] at h
+    obtain ⟨e, hm, rfl⟩ := mem atoms a id h
+    exact ⟨ra e hm, by rw [h2]; exact decode_encode atoms ha a _ h⟩
+  · intro nm id h
+    rw [h3] at h
+    obtain ⟨e, hm, rfl⟩ := mem types nm id h
+    exact ⟨by simpa [limRegIdDec] using (rt e hm).1, (rt e hm).2, by rw [h4]; exact decode_encode types ht nm _ h⟩
+  · intro k id h _
+    rw [h5] at h
+    obtain ⟨e, hm, rfl⟩ := mem errs k id h
+    exact ⟨re e hm, by rw [h6]; simp [decode_encode errs he k _ h]⟩
 
 end ErgoVerif.Props.C11
